@@ -8,6 +8,11 @@ import RxModel.Lemmas.Finalize
   machine (`Finalize.Fin`, `Elem`, `World`) is the transcription of
   src/ops/finalize.rs behind the `Subscriber` slot of a hot subject and is what
   `rxdriver` executes against the real code (suite `finalize`).
+
+  `C15_once` … : the plain pipeline `subject.finalize(f)`.  `C15_chain_once`,
+  `C15_chain_not_before`, `C15_chain_full`: any operators below `finalize` (full strength
+  since `fix: Subject::error/complete hand the terminal to every subscriber`; before it the
+  callback did not run at the source's terminal once an operator below had completed by itself).
 -/
 namespace Rx
 open Finalize
@@ -94,26 +99,52 @@ theorem C15_chain_le_one (id : Nat) (up down : List St1) (evs : List Ev) :
   have h0 := one_fin_init id up down
   omega
 
-/-- Full-strength statement for chains: whenever the history contains a
-    trigger, the callback has run.  FALSE of the code: see below. -/
-def C15_chain_full : Prop :=
-  ∀ (down : List St1) (evs : List Ev), (∃ e ∈ evs, e.isTrigger = true) →
-    countF 0 ((World.init (.fin (Fin.new 0) :: down.map .op)).run evs).2 = 1
+/-- `subject.finalize(f)` followed by ANY operators (`down`: map, filter, … and the ones that
+    complete the downstream by themselves: take, take_while, first, contains, …), ANY item
+    prefix, a first trigger `e` (complete, error or unsubscribe), then ANY further events: the
+    log is the log of the same pipeline WITHOUT `finalize` up to and including the trigger,
+    then the callback, and nothing else, ever.  So the callback runs right after what the first
+    trigger itself delivers downstream — also when `take` had completed the probe long before
+    the source's terminal — never before it and never again. -/
+theorem C15_chain_once (id : Nat) (down : List St1) (pre : List Val) (e : Ev)
+    (he : e.isTrigger = true) (post : List Ev) :
+    ((World.init (.fin (Fin.new id) :: down.map .op)).run
+        (pre.map (fun v => Ev.emit (.next v)) ++ e :: post)).2 =
+      ((World.init (down.map .op)).run (pre.map (fun v => Ev.emit (.next v)) ++ [e])).2 ++ [.f id] := by
+  obtain ⟨h1, e1⟩ := headSim_items pre (headSim_init id down)
+  obtain ⟨h2, e2⟩ := headSim_trigger h1 e he
+  have e3 := headSpent_run post h2
+  rw [run_append, run_append]
+  simp only [World.run, e1, e2, e3, List.append_nil, List.append_assoc]
 
-/-- `subject.finalize(f).take(1)`, item, complete: `take` completes the probe at
-    the item; the FinalizerObserver then reports `is_finished()`, the subject
-    filters it out of its completion fan-out and drops it — the callback never
-    runs (unless somebody still calls `unsubscribe`). -/
-theorem C15_chain_full_false : ¬ C15_chain_full := by
-  intro h
-  have := h [.take 1 0 true] [.emit (.next (.int 1)), .emit .complete]
-    ⟨.emit .complete, by simp, rfl⟩
-  revert this
-  decide
+/-- Before the first trigger a chain is as silent about the callback as the plain pipeline:
+    items only give the log of the pipeline without `finalize` — no marker. -/
+theorem C15_chain_not_before (id : Nat) (down : List St1) (pre : List Val) :
+    ((World.init (.fin (Fin.new id) :: down.map .op)).run (pre.map fun v => Ev.emit (.next v))).2 =
+      ((World.init (down.map .op)).run (pre.map fun v => Ev.emit (.next v))).2 ∧
+    countF id ((World.init (.fin (Fin.new id) :: down.map .op)).run
+      (pre.map fun v => Ev.emit (.next v))).2 = 0 := by
+  obtain ⟨_, e1⟩ := headSim_items pre (headSim_init id down)
+  exact ⟨e1, by rw [e1]; exact ops_no_marker id down _⟩
 
-/-- What does hold for every chain: never twice (`C15_chain_le_one`), and exactly
-    once as soon as the subscription is unsubscribed — whatever happened before. -/
-theorem C15_chain_partial (id : Nat) (up down : List St1) (pre post : List Ev) :
+/-- Full-strength statement for chains: whenever the history contains a trigger, the callback
+    has run exactly once — whatever operators follow `finalize`.  (FALSE of the code before `fix:
+    Subject::error/complete hand the terminal to every subscriber`, see the end of this file.) -/
+theorem C15_chain_full (id : Nat) (down : List St1) (evs : List Ev)
+    (h : ∃ e ∈ evs, e.isTrigger = true) :
+    countF id ((World.init (.fin (Fin.new id) :: down.map .op)).run evs).2 = 1 := by
+  rcases C15_shapes evs with ⟨pre, rfl⟩ | ⟨pre, e, post, he, rfl⟩
+  · obtain ⟨e, hm, he⟩ := h
+    obtain ⟨v, _, rfl⟩ := List.mem_map.1 hm
+    cases he
+  · rw [C15_chain_once id down pre e he post, countF_append, ops_no_marker]
+    simp [countF]
+
+/-- With operators ABOVE `finalize` as well (`up`; some of them, e.g. `on_error`, keep a terminal
+    of the source away from the finalizer, so that for the finalizer's own subscription only the
+    unsubscription is a trigger in general): never twice (`C15_chain_le_one`), and exactly once
+    as soon as the subscription is unsubscribed — whatever happened before. -/
+theorem C15_chain_unsub (id : Nat) (up down : List St1) (pre post : List Ev) :
     countF id ((World.init (up.map .op ++ .fin (Fin.new id) :: down.map .op)).run
       (pre ++ .unsub :: post)).2 = 1 := by
   have h0 := one_fin_init id up down
@@ -141,5 +172,20 @@ example : ((World.init [.fin (Fin.new 0), .op (.last none), .fin (Fin.new 1)]).r
     [.n (.next (.int 2)), .n .complete, .f 1, .f 0] := by decide
 example : (Ev.emit (.error 3)).isTrigger = true ∧ Ev.unsub.isTrigger = true ∧
     (Ev.emit (.next .unit)).isTrigger = false := by decide
+-- `subject.finalize(f).take(1)`: `take` completes the probe at the item; the callback runs at the
+-- source's completion (and not at a later unsubscribe)
+example : ((World.init [.fin (Fin.new 0), .op (.take 1 0 true)]).run
+    [.emit (.next (.int 1)), .emit .complete, .unsub]).2 =
+    [.n (.next (.int 1)), .n .complete, .f 0] := by decide
+
+/-! The code BEFORE `fix: Subject::error/complete hand the terminal to every subscriber`
+    (`World.runBefore`): `subject.finalize(f).take(1)`, item, complete — `take` completes the probe
+    at the item; the FinalizerObserver then reported `is_finished()`, the subject filtered it out of
+    its completion fan-out and dropped it: the callback never ran (unless somebody still called
+    `unsubscribe`).  `C15_chain_full` was false of that code. -/
+example : countF 0 ((World.init [.fin (Fin.new 0), .op (.take 1 0 true)]).runBefore
+    [.emit (.next (.int 1)), .emit .complete]).2 = 0 := by decide
+example : ((World.init [.fin (Fin.new 0), .op (.take 1 0 true)]).run
+    [.emit (.next (.int 1)), .emit .complete]).2 = [.n (.next (.int 1)), .n .complete, .f 0] := by decide
 
 end Rx
